@@ -129,9 +129,21 @@ def ep_path(base, args):
     return base + "".join("/{%s}" % a["argName"] for a in args if a["paramType"]["type"] == "path")
 
 
-def case_to_ir(case, rng, layout):
+def renamed(a, name):
+    """the argument definition under another name (argument names are scoped to their endpoint)"""
+    b = json.loads(json.dumps(a))
+    b["argName"] = name
+    pt = b["paramType"]
+    if pt["type"] in ("query", "header"):
+        pt[pt["type"]]["paramId"] = "X-%s" % name if pt["type"] == "header" else name
+    return b
+
+
+def case_to_ir(case, rng, layout, argmap=None):
     """layout 0: types in index order, one service, one endpoint per argument in order (evaluation order = model).
-    layout k>0: types shuffled, arguments shuffled over several services/endpoints."""
+    layout k>0: types shuffled, arguments shuffled over several services/endpoints; when `argmap` is given the arguments
+    are named by their position in their endpoint, so different endpoints of one service share argument names
+    (argmap[j] = (service, endpoint, name))."""
     tab, args = case["tab"], case["args"]
     types = [type_def(t + 1, d, rng, bare=(layout == 0)) for t, d in enumerate(tab)]
     adefs = [arg_def(j + 1, a, rng) for j, a in enumerate(args)]
@@ -155,6 +167,9 @@ def case_to_ir(case, rng, layout):
                 if cur and (rng.chance(1, 2) or (a["paramType"]["type"] == "body" and has_body)):
                     eps.append(cur)
                     cur = []
+                if argmap is not None:
+                    a = renamed(a, "x%d" % (len(cur) + 1))
+                    argmap[j] = ("S%d" % (si + 1), "e%d" % (len(eps) + 1), a["argName"])
                 cur.append(a)
             if cur:
                 eps.append(cur)
@@ -249,12 +264,17 @@ def has_cycle(tab):
 # ---------------------------------------------------------------------------------------------
 
 
-def observed_flags(obs):
-    """arg name -> {"sync": bool, "async": bool} from the harness' report of the generated traits."""
+def observed_flags(obs, argmap=None):
+    """arg name -> {"sync": bool, "async": bool} from the harness' report of the generated traits; with an argmap
+    (shared argument names) the arguments are found by (service, endpoint, name) and reported under a<j>."""
     out = {}
+    where = {v: "a%d" % (j + 1) for j, v in (argmap or {}).items()}
     for a in obs["args"]:
         name = a["log_as"].strip('"') if a.get("log_as") else a["ident"]
         style = "async" if a["trait"].startswith("Async") else "sync"
+        if argmap:
+            svc = a["trait"][5:] if style == "async" else a["trait"]
+            name = where.get((svc, a["method"], name), "?%s.%s.%s" % (svc, a["method"], name))
         out.setdefault(name, {})[style] = a["safe"]
     return out
 
@@ -326,17 +346,19 @@ def run(tier, seed, only_cases=None):
     for ci, c in enumerate(chosen):
         for layout in range(nlayouts):
             cid = "%d.%d" % (ci, layout)
-            docs.append(json.dumps({"id": cid, "ir": case_to_ir(c, vc.Rng(seed * 1000003 + ci * 7 + layout), layout)}))
-            meta[cid] = (c, layout)
+            am = {} if layout > 0 else None
+            rs = seed * 1000003 + ci * 7 + layout
+            docs.append(json.dumps({"id": cid, "ir": case_to_ir(c, vc.Rng(rs), layout, am)}))
+            meta[cid] = (c, layout, am, rs)
     text = vc.harness_parallel("vh", ["codegen-safe"], docs)
     replayed = 0
     nontrivial = set()
     samples = []
     for obs in vc.ndjson(text):
-        c, layout = meta[obs["id"]]
+        c, layout, am, rs = meta[obs["id"]]
         if not obs["ok"]:
             raise vc.ToolError("generator failed on a C08 case %s: %s" % (obs["id"], obs["error"]))
-        flags = observed_flags(obs)
+        flags = observed_flags(obs, am)
         n = len(c["args"])
         replayed += 1
         for j in range(n):
@@ -350,7 +372,7 @@ def run(tier, seed, only_cases=None):
                     sig = "C08:%s:%s" % (kind, "cycle" if has_cycle(c["tab"]) else "acyclic")
                     out.violation(sig, "argument a%d (%s trait) generated %s but reference semantics says %s" % (
                         j + 1, style, "safe" if got else "not safe", "safe" if c["ref"][j] else "not safe"),
-                        {"case": c, "layout": layout, "seed": seed, "observed": flags})
+                        {"case": c, "layout": layout, "seed": rs, "observed": flags})
                 elif layout == 0 and got != c["mech"][off + j]:
                     out.model_drift("LogSafety", "case %s a%d %s: model predicted %s" % (obs["id"], j + 1, style,
                                                                                        c["mech"][off + j]))
@@ -418,7 +440,7 @@ def run(tier, seed, only_cases=None):
             c = tmeta[rid]
             out.violation("C08:%s:trace" % ("unsound" if payload["observed"] else "incomplete"),
                           "recorded is_safe_arg result for %s contradicts the reference semantics" % json.dumps(
-                              payload["arg"]), {"case": c, "layout": 0, "seed": seed, "call": k})
+                              payload["arg"]), {"case": c, "layout": 0, "seed": seed * 7919 + int(rid[1:]), "call": k})
             accepted_runs -= 1
         elif kind == "MECHFAIL":
             out.model_drift("TraceLogSafety", "line %d: recursion events differ from the model" % payload["line"])
@@ -460,9 +482,10 @@ def replay(path, seed):
     c = rep["case"]["case"]
     layout = rep["case"].get("layout", 0)
     out = vc.Outcome(PID, "quick", seed, "model_checking")
-    doc = json.dumps({"id": "r", "ir": case_to_ir(c, vc.Rng(rep["case"].get("seed", seed)), layout)})
+    am = {} if layout > 0 else None
+    doc = json.dumps({"id": "r", "ir": case_to_ir(c, vc.Rng(rep["case"].get("seed", seed)), layout, am)})
     obs = vc.ndjson(vc.harness("vh", ["codegen-safe"], stdin=doc + "\n"))[0]
-    flags = observed_flags(obs)
+    flags = observed_flags(obs, am)
     s = py_safe_types(c["tab"])
     bad = 0
     for j, a in enumerate(c["args"]):
